@@ -42,6 +42,7 @@ Proof.
   destruct sep; [|exact I].
   destruct (if (match host with h0 :: _ => h0 =? 91 | [] => false end) && memN 93 port_str then _ else _)
     as [host' port_str'].
+  apply mbind_only; [|intro; exact I]. unfold port_of.
   destruct (all_ascii port_str').
   - destruct (py_int port_str'); [exact I|]. destruct port_str'; [exact I|reflexivity].
   - destruct OT as [_ [_ OI]]. destruct (OI port_str') as [r Hr]. rewrite Hr. cbn [mbind].
@@ -107,6 +108,7 @@ Proof.
   destruct sep; [|exact I].
   destruct (if (match host with h0 :: _ => h0 =? 91 | [] => false end) && memN 93 port_str then _ else _)
     as [host' port_str'].
+  apply mbind_strict; [|intro; exact I]. unfold port_of.
   destruct (all_ascii port_str').
   - destruct (py_int port_str'); [exact I|]. destruct port_str'; [exact I|reflexivity].
   - destruct OA as [[_ [_ OI]] _]. destruct (OI port_str') as [r Hr]. rewrite Hr. cbn [mbind].
